@@ -124,8 +124,11 @@ def f_leaves(t):
     return frozenset(m for m in (marker(x) for x in walk(t)) if m)
 
 
-def s_leaves(e, known, dialect):
+def s_leaves(e, known, dialect, marks=None):
     out = set()
+    if marks is None:
+        marks = ([m for m in known if m.startswith("s:")], [m for m in known if m.startswith("t:")])
+    s_marks, t_marks = marks
     for node in sqlparse.subnodes(e):
         k = node[0]
         if k == "col":
@@ -137,11 +140,14 @@ def s_leaves(e, known, dialect):
         elif k in ("str", "typed", "interval"):
             s = node[1] if k != "typed" else node[2]
             s = s.replace("\\", "")
-            for m in known:
-                if m.startswith("s:") and m[2:] in s:
+            for m in s_marks:
+                if m[2:] in s:
                     out.add(m)
-                elif m.startswith("t:") and m[2:] in norm_dt(s):
-                    out.add(m)
+            if t_marks:
+                ns = norm_dt(s)
+                for m in t_marks:
+                    if m[2:] in ns:
+                        out.add(m)
     return frozenset(out)
 
 
@@ -169,8 +175,14 @@ def structure_check(t, tree, dialect):
     known = f_leaves(t)
     nodes = sqlparse.subnodes(tree)
 
+    marks = ([m for m in known if m.startswith("s:")], [m for m in known if m.startswith("t:")])
+    memo = {}
+
     def L(e):
-        return s_leaves(e, known, dialect)
+        r = memo.get(id(e))
+        if r is None:
+            r = memo[id(e)] = s_leaves(e, known, dialect, marks)
+        return r
 
     def parent_ops():
         # (node, parent) pairs for and/or chain roots
